@@ -126,6 +126,34 @@ def table_u(facts, rep, w, rule="R09.1", only=None):
                 rep.ob(rule, b.id, "append_file: copy-up when the upper layer lacks the file", ok, "" if ok else
                        "some path reaches the upper-layer append_file with neither the upper copy existing nor a "
                        "successful copy-up: appending does not continue the lower layer's bytes", s.line)
+            # nothing is materialised in the upper layer before the target is known to exist: the path layer does not
+            # validate the parent of an append, and the union parent may be a *file* (append to "/f/x" with a lower-layer
+            # file "/f" would otherwise shadow that file with a directory and then fail)
+            own = lambda c: not (c.impl and c.impl["self_ty"] == w.overlay)
+            for cb in ov.inter.code_bodies(b):
+                trb = get_tracer(facts, cb)
+                for s2 in ov.inter.sites(cb):
+                    hb = ov.inter.local_callee(s2)
+                    mat = False
+                    if hb is not None and hb.impl and hb.impl["self_ty"] == w.overlay and hb.impl["trait"] is None:
+                        for rb in ov.inter.reachable([hb], through_dyn=False, stop=own).values():
+                            trr = get_tracer(facts, rb)
+                            for s3 in ov.inter.sites(rb):
+                                if sname(s3.path) in ("create_dir_all", "create_dir") and s3.self_ty and s3.self_ty.endswith("VfsPath") and \
+                                        s3.args and ov.is_upper_plain(trr.operand(s3.args[0])):
+                                    mat = True
+                    elif sname(s2.path) in ("create_dir_all", "create_dir") and s2.self_ty and s2.self_ty.endswith("VfsPath") and \
+                            s2.args and ov.is_upper_plain(trb.operand(s2.args[0])):
+                        mat = True
+                    if not mat:
+                        continue
+                    gs = ov.guards(cb, s2.bb)
+                    okm = ov.u_exists(gs, ov.is_key, True) or ov.u_type(gs, ov.is_parent_key, "Directory")
+                    n += 1
+                    rep.ob(rule, b.id, "append_file: parents materialised only after the target was resolved", okm, "" if okm else
+                           "the upper-layer parent chain is created before the file to append to has been found in the union (and "
+                           "without checking that the union parent is a directory): a failed append below a lower-layer *file* "
+                           "leaves a directory shadowing that file", s2.line)
             # the copy-up goes resolved -> upper
             for cb, s, tr, recv in ov.path_sites(b, ("copy_file",)):
                 dst = tr.operand(s.args[1])
@@ -337,6 +365,17 @@ def listing_rules(facts, rep, w, rule="R09.4"):
                        for x in walk(recvn))
         n += 1
         rep.ob(rule, b.id, "all layers are visited", full, "", s.line)
+    # a layer below the serving one may hold a *file* of that name (shadowed by the directory above it): there must be a
+    # type test of the layer's entry that lets the merge skip it
+    if any_layer:
+        recvs = {norm(x[3]) for x in any_layer}
+        tests = [s for cb, s, tr in ov.sites(b) if sname(s.path) in ("is_dir", "is_file", "metadata") and s.self_ty and
+                 s.self_ty.endswith("VfsPath") and s.args and norm(tr.operand(s.args[0])) in recvs]
+        n += 1
+        rep.ob(rule, b.id, "a shadowed non-directory entry of a lower layer can be skipped", len(tests) >= 1,
+               "%d type test(s) of the layer entry" % len(tests) if tests else
+               "every layer that has an entry of that name is listed unconditionally: a directory (re-)created over a lower-layer "
+               "file of the same name cannot be listed ('Not a directory' from the lower layer)", b.span)
     # union exists guard before listing
     if inserts:
         cb, s, tr = inserts[0]
